@@ -372,8 +372,14 @@ func (s *StateMachine) getParams(space string, ptr any, emptyErr func() lib.Erro
 	if err != nil {
 		return err
 	}
-	// if the bytes are empty, execute and return the  callback error
+	// if the bytes are empty
 	if bz == nil {
+		// a parameter space whose fields are all zero encodes to zero bytes, which the store cannot tell from
+		// an absent key once committed: report 'empty' only when the zero-valued space is not itself valid
+		if space, ok := ptr.(interface{ Check() lib.ErrorI }); ok && space.Check() == nil {
+			return nil
+		}
+		// execute and return the callback error
 		return emptyErr()
 	}
 	// convert the parameters bytes to the params object reference
